@@ -344,6 +344,9 @@ def _matches_ignore_next_line_rules(prev_line: str, rule_id: str) -> bool:
     match = re.search(r"ignore-next-line\[([^\]]+)\]", prev_line, re.IGNORECASE)
     if match:
         return check_bracket_rules(match.group(1), rule_id)
+    space_match = re.search(r"ignore-next-line\s+([^\s#]+(?:\s+[^\s#]+)*)", prev_line, re.IGNORECASE)
+    if space_match:  # ignore-next-line rule-a rule-b (a reason after " - " names no rule: all rules)
+        return check_space_separated_rules(space_match.group(1), rule_id)
     return True
 
 
